@@ -714,6 +714,29 @@ pub fn gen_cfg(r: &mut Rng, o: &GenOpts) -> BuildCfg {
     for i in 0..ncl {
         cfg.changelog.push((format!("Author {i} <a{i}@example.com> - 1.{i}-1"), rand_string(r), [0u32, 840_000_000, 1_681_411_811, u32::MAX][r.usize(4)]));
     }
+    // dependencies that spell out what the builder adds by itself (the package's own name / name(arch) at
+    // its own version, an rpmlib() requirement), somewhere among the others: what the caller supplied must
+    // still come back at the place it was supplied (seeded change C06-s). Drawn last: the random stream of
+    // everything above stays what it was.
+    if r.chance(1, 3) {
+        let n = 1 + r.usize(2);
+        for _ in 0..n {
+            let own = match r.below(4) {
+                0 | 1 => DepCfg { kind: 0, ctor: "eq".into(), name: cfg.name.clone(), version: cfg.version.clone(), raw_flags: 0 },
+                2 => DepCfg { kind: 0, ctor: "eq".into(), name: format!("{}({})", cfg.name, cfg.arch), version: cfg.version.clone(), raw_flags: 0 },
+                _ => DepCfg { kind: 1, ctor: "raw".into(), name: "rpmlib(CompressedFileNames)".into(), version: "3.0.4-1".into(), raw_flags: (1 << 24) | 2 | 8 },
+            };
+            // never the same one twice: what a builder does with a dependency given twice is not judged
+            if cfg.deps.contains(&own) {
+                continue;
+            }
+            let at = r.usize(cfg.deps.len() + 1);
+            cfg.deps.insert(at, own);
+        }
+        // and something of the same kind behind it
+        cfg.deps.push(DepCfg { kind: 0, ctor: "any".into(), name: "after-own".into(), version: String::new(), raw_flags: 0 });
+        cfg.deps.push(DepCfg { kind: 1, ctor: "any".into(), name: "after-own-req".into(), version: String::new(), raw_flags: 0 });
+    }
     cfg
 }
 
